@@ -97,6 +97,13 @@ def model_apply(v, op):
     raise ValueError(kind)
 
 
+class I_list:
+    """A list argument built on the heap at setup time."""
+
+    def __init__(self, items):
+        self.items = items
+
+
 def mutator_contract(style, n, op_name, op_builder, watched, stale=0, ghosts=0, unnamed_at=None):
     """op_builder(objs, keys, extra) -> (method name, call args as Vals, model op)"""
     def setup(I, st):
@@ -152,6 +159,7 @@ def mutator_contract(style, n, op_name, op_builder, watched, stale=0, ghosts=0, 
             return [(st2, d)]
         I.contracts["_named_objs"] = named_objs
         mname, args, mop = op_builder(named, keys, extra)
+        args = [I.make_list(st, a.items) if isinstance(a, I_list) else a for a in args]
         found = I.src.find_method("ListProxy", mname)
         fv = I.bound_method(proxy, found)
         v0 = View(objs, list(zip(keys, named)) if style == "dict" else [])
@@ -281,12 +289,22 @@ def contracts():
                 C.append(mutator_contract("dict", n, "[k%d]=" % i, lambda o, k, x, i=i: ("__setitem__", [Conc(k[i]), x[0]], ("setkey", k[i], x[0])), False, unnamed_at=j))
                 C.append(mutator_contract("dict", n, "pop(k%d)" % i, lambda o, k, x, i=i: ("pop", [Conc(k[i])], ("popkey", k[i])), False, unnamed_at=j))
             C.append(mutator_contract("dict", n, "[newkey]=", lambda o, k, x: ("__setitem__", [Conc("knew"), x[0]], ("setkey", "knew", x[0])), False, unnamed_at=j))
+    # dict-style update(...) on dict-declared objects: pairs in order, then keyword items
+    for n in (1, 2):
+        for watched in (False, True):
+            C.append(mutator_contract("dict", n, "update([(newkey, v)])",
+                                      lambda o, k, x: ("update", [I_list([TupV([Conc("knew"), x[0]])])], ("update", [("knew", x[0])])), watched))
+            C.append(mutator_contract("dict", n, "update([(k0, v)])",
+                                      lambda o, k, x: ("update", [I_list([TupV([Conc(k[0]), x[0]])])], ("update", [(k[0], x[0])])), watched))
+            C.append(mutator_contract("dict", n, "update([(newkey, v), (k%d, w)])" % (n - 1),
+                                      lambda o, k, x, n=n: ("update", [I_list([TupV([Conc("knew"), x[0]]), TupV([Conc(k[n - 1]), x[1]])])],
+                                                            ("update", [("knew", x[0]), (k[n - 1], x[1])])), watched))
     return C
 
 
 ASSUMPTIONS = [
     "objects are pairwise distinct, non-None, hashable opaque objects (scope of the statement: unique hashable objects, style-consistent operations)",
-    "list lengths 0..3 (bounded in this one dimension; objects, keys and positions are arbitrary); `_named_objs`, `get_range` and `update(...)` are covered by the bounded layer only",
+    "list lengths 0..3 (bounded in this one dimension; objects, keys and positions are arbitrary); `update` is proved for sequences of one and two pairs on dict-declared objects; `_named_objs`, `get_range`, `update` with a mapping or keyword items are covered by the bounded layer only",
     "callee contracts: Parameter._trigger_event (records the notification), ListProxy._warn (logging, no effect)",
 ]
 
